@@ -26,16 +26,23 @@ class _DB:
         from reporters_db import JOURNALS, REPORTERS
 
         std = []
-        pairs = []  # (canonical edition name, variation) with the standard template
+        pairs = []  # (canonical edition name, variation) for which the standard 'vol R page' form is valid
+        custom_pairs = []  # (canonical edition name, variation) of editions with custom templates only
         for key, cl in REPORTERS.items():
             for src in cl:
                 for en, ed in src["editions"].items():
-                    if (ed.get("regexes") or ["$full_cite"]) == ["$full_cite"]:
+                    templates = ed.get("regexes") or ["$full_cite"]
+                    if templates == ["$full_cite"]:
                         std.append(en)
-                        for v, t in src["variations"].items():
-                            if t == en:
+                    for v, t in src["variations"].items():
+                        if t == en:
+                            if templates == ["$full_cite"]:
                                 std.append(v)
+                            if "$full_cite" in templates:
                                 pairs.append((en, v))
+                            else:
+                                custom_pairs.append((en, v))
+        self.custom_pairs = sorted(set(custom_pairs))
         # independent view of the database: every (reporter cluster, edition) a string is related to,
         # as an edition name or as a variation, whatever the template
         related = {}
